@@ -1,2 +1,104 @@
-From AM Require Import Base.Prelude Model.Nflog.
-Theorem c10_placeholder : True. Proof. exact I. Qed.
+(* C10 — Replicated notification log converges and never goes backwards.
+   Only statements here; every proof is `exact <lemma from Proofs/NflogProofs.v>`. *)
+From AM Require Import Base.Prelude Model.Nflog Proofs.NflogProofs.
+
+(* An older entry never overwrites a newer one: across ANY operation (Log, Merge of any batch, Query, reload),
+   a key that holds p afterwards holds an entry at least as new, and the same entry if the timestamp is unchanged;
+   a key only becomes empty through GC, and only when its entry's expiry has passed. *)
+Theorem c10_never_backwards ret s now o k p :
+  s !! k = Some p ->
+  match fst (step ret s now o) !! k with
+  | Some p' => e_ts p <= e_ts p' /\ (e_ts p' = e_ts p -> p' = p)
+  | None => o = OGC /\ e_exp p <= now
+  end.
+Proof. exact (step_never_backwards ret s now o k p). Qed.
+
+(* An expired entry is never accepted. *)
+Theorem c10_expired_never_accepted now s e : e_exp e < now -> merge1 now s e = (s, false).
+Proof. exact (merge1_expired now s e). Qed.
+
+Theorem c10_expired_batch_never_accepted now es s :
+  Forall (fun e => e_exp e < now) es -> mrun s (map (fun e => (now, e)) es) = s.
+Proof. exact (mrun_all_expired now es s). Qed.
+
+(* Re-merging what is already stored changes nothing and reports "not merged" (no further gossip). *)
+Theorem c10_remerge_noop now s e : s !! skey e = Some e -> merge1 now s e = (s, false).
+Proof. exact (merge1_idempotent now s e). Qed.
+
+(* Convergence, independent of arrival order, duplication and batching: two GC-free histories (local Log calls,
+   merges of arbitrary batches, queries, reloads, at arbitrary instants) that offer, per key, the same set of
+   entries while these are unexpired, end in the same state from the same starting state, provided timestamps
+   per key are distinct. *)
+Theorem c10_convergence ret s0 h1 h2 :
+  forallb (fun d => negb (is_gc (snd d))) h1 = true ->
+  forallb (fun d => negb (is_gc (snd d))) h2 = true ->
+  (forall k x, In x (timely_k k (offered_hist ret h1)) <-> In x (timely_k k (offered_hist ret h2))) ->
+  (forall k, distinct_ts (s0 !! k) (timely_k k (offered_hist ret h1))) ->
+  run_state ret s0 h1 = run_state ret s0 h2.
+Proof.
+  intros H1 H2 Hset Hd. rewrite !run_state_nogc by assumption. exact (mrun_convergence s0 _ _ Hset Hd).
+Qed.
+
+(* ... and that common state holds, per key, a newest entry among the starting one and those offered unexpired. *)
+Theorem c10_state_is_newest ret s0 h k :
+  forallb (fun d => negb (is_gc (snd d))) h = true ->
+  is_max (run_state ret s0 h !! k) (s0 !! k) (timely_k k (offered_hist ret h)).
+Proof. intros H. rewrite run_state_nogc by exact H. exact (mrun_newest s0 _ k). Qed.
+
+(* With garbage collection at arbitrary instants: after any history with a non-decreasing clock, an entry that
+   was offered while unexpired and has not expired by the end is covered by a stored entry of its key that was
+   itself offered, is unexpired, and is at least as new as every unexpired offered entry of that key
+   (expiry assumed monotone in the timestamp per key, as Log produces it). *)
+Theorem c10_newest_unexpired_with_gc ret h t0 e :
+  mono_from t0 (acts_hist ret h) -> mono_exp (timely (acts_hist ret h)) ->
+  In e (timely (acts_hist ret h)) -> last_time t0 (acts_hist ret h) < e_exp e ->
+  exists p, run_state ret ∅ h !! skey e = Some p /\ In p (timely (acts_hist ret h)) /\ skey p = skey e /\
+            e_ts e <= e_ts p /\ last_time t0 (acts_hist ret h) < e_exp p /\
+            (forall y, In y (timely (acts_hist ret h)) -> skey y = skey e ->
+                       last_time t0 (acts_hist ret h) < e_exp y -> e_ts y <= e_ts p).
+Proof. rewrite run_state_acts. exact (arun_newest_unexpired (acts_hist ret h) t0 e). Qed.
+
+(* Only entries that were offered (unexpired) are ever stored, each under its own key. *)
+Theorem c10_only_offered_entries ret h t0 k p :
+  mono_from t0 (acts_hist ret h) -> mono_exp (timely (acts_hist ret h)) ->
+  run_state ret ∅ h !! k = Some p -> In p (timely (acts_hist ret h)) /\ skey p = k.
+Proof. rewrite run_state_acts. exact (arun_only_offered (acts_hist ret h) t0 k p). Qed.
+
+(* A query returns exactly the stored entry, or not-found. *)
+Theorem c10_query_exact ret s now recv gkey :
+  step ret s now (OQuery recv gkey) =
+  (s, match s !! skey_of gkey recv with Some e => RFound e | None => RNotFound end).
+Proof. exact (query_exact ret s now recv gkey). Qed.
+
+(* GC keeps exactly the entries whose expiry is still ahead, unchanged, and drops the others. *)
+Theorem c10_gc_exact ret s now k :
+  fst (step ret s now OGC) !! k =
+  match s !! k with Some e => if now <? e_exp e then Some e else None | None => None end.
+Proof. exact (gc_lookup ret s now k). Qed.
+
+(* Receiver data (and the alert hashes) logged are what the key holds right afterwards, unchanged. *)
+Theorem c10_receiver_data_unchanged ret s now recv gkey f r d x :
+  0 <= ret -> 0 <= x ->
+  (forall p, s !! skey_of gkey recv = Some p -> e_ts p < now) ->
+  fst (step ret s now (OLog recv gkey f r d x)) !! skey_of gkey recv
+  = Some (mkEntry gkey recv now (log_expiry ret now x) f r d).
+Proof. exact (log_then_query ret s now recv gkey f r d x). Qed.
+
+(* ---- non-vacuity: the hypotheses are met by concrete, non-trivial histories ---- *)
+Definition ex_a := mkEntry "g" "r/webhook/0" 100 5000 [1] [] [("k", RStr "v")].
+Definition ex_b := mkEntry "g" "r/webhook/0" 200 6000 [1; 2] [] [].
+Definition ex_h1 := [(300, OMerge [Some ex_a] 10); (310, OMerge [Some ex_b] 10)].
+Definition ex_h2 := [(305, OMerge [Some ex_b; Some ex_b] 20); (320, OMerge [Some ex_a] 10); (330, OQuery "r/webhook/0" "g")].
+Example c10_convergence_nonvacuous :
+  map_to_list (run_state 3600 ∅ ex_h1) = map_to_list (run_state 3600 ∅ ex_h2) /\
+  run_state 3600 ∅ ex_h1 !! skey ex_b = Some ex_b.
+Proof. vm_compute. split; reflexivity. Qed.
+Example c10_gc_history_nonvacuous :
+  let h := [(300, OMerge [Some ex_a] 10); (310, OLog "r/webhook/0" "g" [7] [] [] 0); (5500, OGC)] in
+  mono_from 0 (acts_hist 10000 h) /\ length (timely (acts_hist 10000 h)) = 2%nat /\
+  length (map_to_list (run_state 10000 ∅ h)) = 1%nat.
+Proof. vm_compute. repeat split; discriminate. Qed.
+
+Print Assumptions c10_never_backwards.
+Print Assumptions c10_convergence.
+Print Assumptions c10_newest_unexpired_with_gc.
